@@ -32,6 +32,7 @@ EXPLANATION += (' R-C14-5: the histogram utilities (re-binning, combination) app
 EXPLANATION += (" R-C14-6: np.histogram / np.histogram2d in LoadCollective.range_histogram and .histogram are called with weights derived from the collective's cycles.")
 EXPLANATION += (" R-C14-7 (memo rule): no caching decorator or unreset memo attribute in the collective / histogram accessor classes, including writes by the owner object into its implementation object (use_class_left/right set _impl._class_location). R-C14-8: the class counts returned by np.histogram / np.histogram2d reach the returned series without integer coercion or rounding (astype(int...), int(), floor/round, //, dtype=int).")
 EXPLANATION += (" R-C14-9: the validity tests of a binning do not use is_monotonic_decreasing as a stand-in for 'not increasing' (pandas reports an index of one class as both), so single-class target binnings are accepted.")
+EXPLANATION += (' R-C14-10: no absolute tolerance on loads, class widths, overlaps or cycle counts in the collective and histogram modules (np.isclose / allclose with an absolute part, rounding to fixed digits, comparison with or addition of a small fixed number); zero instances expected, built-in example with one instance of each kind.')
 ASSUMPTIONS = ["DataFrame.max(axis=1)/min(axis=1) over the two columns is the row-wise max/min", "range >= 0",
                "pandas reports an index of a single element as is_monotonic_increasing and is_monotonic_decreasing"]
 
@@ -159,6 +160,18 @@ def run(ctx):
     ctx.attempt(_r7)
     ctx.attempt(_r8)
     ctx.attempt(_r9)
+    ctx.attempt(_r10)
+
+
+def _r10(ctx):
+    """R-C14-10: no absolute tolerance on loads, class widths, overlaps or cycle counts in the collective and histogram modules
+    (shared rule `sa/tolerance.py`): re-binning, histogramming, scaling and the derived quantities are exact in the class edges and
+    counts, so they give the same result for a histogram in strain and in microstrain, for absolute counts and relative frequencies."""
+    from .. import tolerance
+    ctx.rule("R-C14-10", floor=1, what="no absolute tolerance (isclose, rounding, small fixed thresholds / offsets) on loads, class widths or counts")
+    tolerance.run_rule(ctx, ctx.prog, ["pylife.utils.histogram", "pylife.stress.collective.load_collective",
+                                       "pylife.stress.collective.load_histogram", "pylife.stress.collective.abstract_load_collective"],
+                       "loads, class edges / overlaps or cycle counts")
 
 
 def _positive_decreasing_tests(fn_node):
